@@ -1274,8 +1274,9 @@ impl ServiceRunner {
                     let dseq: i64 = f.get(1).and_then(|s| s.parse().ok()).unwrap_or(0);
                     let shape = f.get(2).copied().unwrap_or("same");
                     if let Some(seed) = self.seeds.get(&resp_id).copied() {
-                        let base_seq = resp_enr.as_ref().map(|e| e.seq()).unwrap_or(1) as i64;
-                        let seq = (base_seq + dseq).max(0) as u64;
+                        // (sequence numbers run over the whole u64 range)
+                        let base_seq = resp_enr.as_ref().map(|e| e.seq()).unwrap_or(1) as i128;
+                        let seq = (base_seq + dseq as i128).clamp(0, u64::MAX as i128) as u64;
                         if shape == "same" && dseq == 0 {
                             if let Some(e) = resp_enr.clone() {
                                 v.push(e);
